@@ -24,6 +24,141 @@ def matches(rp, wp):
     return r == w or r.startswith(w + ".")
 
 
+NP_REDUCTIONS = {"sum", "min", "max", "mean", "std", "var", "prod", "dot", "average", "nanmin", "nanmax", "nansum", "nanmean",
+                 "median", "amin", "amax", "count_nonzero", "cumsum", "argmin", "argmax"}
+PY_SCALAR = {"float", "int", "bool", "len", "str"}
+
+
+def numpy_scalar_rule(repo, rep, r7, c, m):
+    """Flow-insensitive taint inside _numpy: numpy reductions / array elements are tainted, float()/int()/.item()/.tolist()
+    clean, arithmetic and min()/max() propagate.  A tainted value must not be stored into a serialised number field."""
+    f = repo.own_method(c, "_numpy")
+    rep.analysed_functions.add(f.construct)
+    sn = f.params[0]
+    arrays = {p for p in f.params[1:]}          # data, weights (arrays or scalars), shape
+    tainted = set()
+
+    def is_t(e):
+        if isinstance(e, ast.Name):
+            return e.id in tainted
+        if isinstance(e, ast.Call):
+            fn = e.func
+            name = fn.id if isinstance(fn, ast.Name) else (fn.attr if isinstance(fn, ast.Attribute) else None)
+            if isinstance(fn, ast.Name) and name in PY_SCALAR:
+                return False
+            if isinstance(fn, ast.Attribute) and name in ("item", "tolist"):
+                return False
+            if isinstance(fn, ast.Attribute) and name in NP_REDUCTIONS:
+                return True
+            if isinstance(fn, ast.Name) and name in ("min", "max", "sum", "abs", "round"):
+                return any(is_t(a) for a in e.args) or (name == "sum" and True and any(isinstance(a, ast.Name) and a.id in array_names for a in e.args))
+            return False
+        if isinstance(e, ast.BinOp):
+            return is_t(e.left) or is_t(e.right)
+        if isinstance(e, ast.UnaryOp):
+            return is_t(e.operand)
+        if isinstance(e, ast.IfExp):
+            return is_t(e.body) or is_t(e.orelse)
+        if isinstance(e, ast.Subscript):
+            # an element of an array is a numpy scalar
+            return isinstance(e.value, ast.Name) and e.value.id in array_names and not isinstance(e.slice, ast.Slice)
+        return False
+
+    # names bound to arrays: results of self.quantity(...), numpy constructors, _makeNPWeights, comparisons/arithmetic on arrays
+    array_names = set()
+    changed = True
+    while changed:
+        changed = False
+        for n in walk_local_stmt(f.node):
+            if isinstance(n, ast.Assign) and len(n.targets) == 1 and isinstance(n.targets[0], ast.Name):
+                t = n.targets[0].id
+                v = n.value
+                txt = ast.unparse(v)
+                arr = (isinstance(v, ast.Call) and (txt.startswith(f"{sn}.quantity(") or txt.startswith(f"{sn}._makeNPWeights(")
+                                                     or txt.split("(")[0] in ("numpy.array", "np.array", "numpy.asarray", "np.asarray",
+                                                                              "numpy.ones", "np.ones", "numpy.zeros", "np.zeros",
+                                                                              "numpy.isnan", "np.isnan", "numpy.floor", "np.floor"))) \
+                    or (isinstance(v, (ast.BinOp, ast.Compare, ast.Subscript)) and any(isinstance(x, ast.Name) and x.id in array_names for x in ast.walk(v))
+                        and not is_t(v) and not (isinstance(v, ast.Subscript) and not isinstance(v.slice, (ast.Slice, ast.Name, ast.Compare))))
+                if arr and t not in array_names:
+                    array_names.add(t)
+                    changed = True
+                if is_t(v) and t not in tainted:
+                    tainted.add(t)
+                    changed = True
+            elif isinstance(n, ast.AugAssign) and isinstance(n.target, ast.Name):
+                if is_t(n.value) and n.target.id not in tainted:
+                    tainted.add(n.target.id)
+                    changed = True
+    number_fields = set(m.acc)
+    nstores = 0
+    for n in walk_local_stmt(f.node):
+        tg = []
+        if isinstance(n, ast.Assign):
+            tg = n.targets
+        elif isinstance(n, ast.AugAssign):
+            tg = [n.target]
+        for t in tg:
+            base = t
+            while isinstance(base, ast.Subscript):
+                base = base.value
+            if isinstance(base, ast.Attribute) and isinstance(base.value, ast.Name) and base.value.id == sn and base.attr in number_fields:
+                nstores += 1
+                bad = is_t(n.value)
+                r7.ob(not bad, f"{c.name}._numpy: {norm(n)[:70]}")
+                if bad:
+                    rep.finding("R4.7", f, n, f"`{ast.unparse(n.value)[:80]}` is a numpy scalar (a reduction or an element of an array; for integer or "
+                                f"float32 input not a Python float) and is stored into the serialised field `{base.attr}` without float(): "
+                                f"json.dumps of toJson() then raises TypeError, and the scalar survives +, * and copy()",
+                                stmt=f"{base.attr} <- numpy scalar {norm(n)[:60]}")
+
+
+def bag_key_rule(repo, rep, r8):
+    """Bag stores NaN under the string key "nan" (NaN is not equal to itself).  The normaliser the filling path applies to
+    numeric keys must also be applied by the reader to every numeric value that becomes a key - otherwise a reloaded Bag
+    holds float NaN keys: it re-serialises differently, is unequal to the original and + no longer merges the NaN cell."""
+    bag = repo.cls("Bag")
+    upd = repo.lookup(bag, "_update")
+    rd = repo.own_method(bag, "fromJsonFragment")
+    if upd is None or rd is None:
+        raise AnalysisError("Bag._update / Bag.fromJsonFragment not found")
+    # the normaliser(s) of the filling path: functions applied to q before it is used as a key
+    norms = set()
+    for n in walk_local_stmt(upd.node):
+        if isinstance(n, ast.Assign) and len(n.targets) == 1 and isinstance(n.targets[0], ast.Name) and n.targets[0].id == upd.params[1]:
+            for c in ast.walk(n.value):
+                if isinstance(c, ast.Call) and isinstance(c.func, ast.Name) and c.func.id not in ("tuple", "list", "len", "map"):
+                    norms.add(c.func.id)
+    if not norms:
+        raise AnalysisError("Bag._update: no key normaliser found (floatOrNan expected)")
+    # key variable(s) of the reader: the index of stores into the dict that becomes `values`
+    keyvars = set()
+    for n in walk_local_stmt(rd.node):
+        if isinstance(n, ast.Assign):
+            for t in n.targets:
+                if isinstance(t, ast.Subscript) and isinstance(t.value, ast.Name) and isinstance(t.slice, ast.Name):
+                    keyvars.add(t.slice.id)
+    g = cfgmod.build(rd.node)
+    tcd = g.transitive_control_deps()
+    for node in g.nodes:
+        n = node.ast if node.kind == "stmt" else None
+        if isinstance(n, ast.Assign) and len(n.targets) == 1 and isinstance(n.targets[0], ast.Name) and n.targets[0].id in keyvars:
+            v = n.value
+            # string branch: the raw JSON value guarded by isinstance(..., basestring/str)
+            guarded_str = any(g.nodes[tid].kind == "test" and lab == "T" and "basestring" in ast.unparse(g.nodes[tid].ast) and
+                              "isinstance" in ast.unparse(g.nodes[tid].ast) and "list" not in ast.unparse(g.nodes[tid].ast)
+                              for (tid, lab) in tcd[node.id])
+            uses_norm = any((isinstance(c, ast.Call) and isinstance(c.func, ast.Name) and c.func.id in norms) or
+                            (isinstance(c, ast.Name) and c.id in norms) for c in ast.walk(v))
+            raw_float = any(isinstance(c, ast.Call) and isinstance(c.func, ast.Name) and c.func.id == "float" for c in ast.walk(v))
+            ok = uses_norm and not raw_float or (guarded_str and not raw_float)
+            r8.ob(ok, f"Bag.fromJsonFragment: key `{norm(n)[:60]}`")
+            if not ok:
+                rep.finding("R4.8", rd, n, f"the reader builds a Bag key with `{ast.unparse(v)[:70]}` but the filling path normalises numeric keys "
+                            f"with {sorted(norms)} (NaN is stored under the string 'nan'): a reloaded Bag gets float NaN keys, so it "
+                            f"re-serialises differently and its NaN cell no longer merges with the original's", stmt=f"bag key {norm(n)[:60]}")
+
+
 def run(repo, rep, tier):
     rep.extra["explanation"] = (
         "Agreement analysis between each toJsonFragment (writer) and fromJsonFragment -> ed -> __init__ (reader) of the 19 "
@@ -34,7 +169,9 @@ def run(repo, rep, tier):
         "written for the same slot, and suppressed child names are paired with a :name key passed as nameFromParent; "
         "(R4.4) header keys, registry names and the `name` of every specialised subclass; (R4.5) typestate over the two "
         "construction modes: fields that only ed() establishes survive zero/+/* of a reloaded container, and no slot is "
-        "left None; (R4.6) no JSON-derived dict is splatted into a callee with named parameters. Decides the agreement "
+        "left None; (R4.6) no JSON-derived dict is splatted into a callee with named parameters; (R4.7) in every _numpy the value "
+        "stored into a serialised number field is not a raw numpy reduction/element (json.dumps rejects numpy integer and "
+        "float32 scalars): it passes through float()/int(). Decides the agreement "
         "of the two code paths, not the bit-exact float text."
     )
     rep.not_decided += [
@@ -49,6 +186,11 @@ def run(repo, rep, tier):
     r4 = rep.rule("R4.4", "header keys, registry names, specialised `name` properties", floor=19 + 15)
     r5 = rep.rule("R4.5", "fields established only by ed() survive zero/+/*; no slot is left None in reloaded form", floor=40)
     r6 = rep.rule("R4.6", "no JSON-derived dict is splatted into named parameters", floor=3)
+    r8 = rep.rule("R4.8", "Bag: numeric keys are normalised by the same function (floatOrNan) in fill/_update and in the JSON reader", floor=3)
+    bag_key_rule(repo, rep, r8)
+    r7 = rep.rule("R4.7", "numbers written into serialised fields by _numpy are Python floats (float()/int() applied to numpy reductions)", floor=20)
+    for c in prims:
+        numpy_scalar_rule(repo, rep, r7, c, models[c.name])
     for c in prims:
         m = models[c.name]
         wf, wft, wkeys, scalar = writer_keys(repo, c, m)
